@@ -115,9 +115,9 @@ Definition ex_doc : doc :=
     (LScenes, CScenes [Scene 300 30 [TNode 301 31 [NNode 21 true; NInst (Ref LGeometry 10 true SUrl) [Ref LMaterials 12 true SUrl]]]]);
     (LNodes, CNodes [TNode 201 21 [NNode 22 true]; TNode 202 22 [NNode 23 true; NInst (Ref LGeometry 10 true SUrl) []];
                      TNode 203 23 []]);
-    (LMaterials, CItems [Item 120 12 [Ref LEffects 11 true SUrl]]);
-    (LGeometry, CItems [Item 100 10 []]);
-    (LEffects, CItems [Item 110 11 []]) ]%N.
+    (LMaterials, CItems [Item 120 12 [Ref LEffects 11 true SUrl] None]);
+    (LGeometry, CItems [Item 100 10 [] None]);
+    (LEffects, CItems [Item 110 11 [] None]) ]%N.
 
 Example C07_forward_references_load :
   match load_doc [] ex_doc with
@@ -254,3 +254,63 @@ Proof.
   - intros n u _ H. exact H.
   - vm_compute. reflexivity.
 Qed.
+
+(* ---- Stage 2: the effect-internal reference kinds (texture -> sampler -> surface -> image) *)
+
+(* identity: a sampler is bound to the Surface that THIS effect's scope holds under the named sid,
+   a later newparam with the same sid replaces the earlier one and leaves other sids alone;
+   whatever the scope holds was put there by a newparam of this effect; a texture is bound to a
+   sampler of this effect's scope; and the effect sees the rest of the document only through the
+   image library (nothing of another effect is visible) *)
+Theorem C07_effect_links_identity :
+  (forall o sid u src r sc acc su simg, eget sc src = Some (ESurface su simg) ->
+     load_params o (PSampler sid u src :: r) sc acc =
+     load_params o r (eset sc sid (ESampler u simg)) (acc ++ [su])) /\
+  (forall sc k v, eget (eset sc k v) k = Some v) /\
+  (forall sc k v k', k' <> k -> eget (eset sc k v) k' = eget sc k') /\
+  (forall o ps sc' acc', load_params o ps [] [] = Ok (sc', acc') ->
+     forall k v, In (k, v) sc' -> from_params ps k v) /\
+  (forall sc name u, find_sampler sc name = Some u -> exists k i, In (k, ESampler u i) sc) /\
+  (forall o o' b, lib_list o LImages = lib_list o' LImages -> load_effect_body o b = load_effect_body o' b).
+Proof.
+  split; [intros o sid u src r sc acc su simg H; simpl; rewrite H; reflexivity|].
+  split; [exact eget_eset_same|]. split; [exact eget_eset_other|].
+  split; [intros o ps sc' acc' H k v Hin; destruct (load_params_scope o ps [] [] sc' acc' H k v Hin) as [[]|A]; exact A|].
+  split; [exact find_sampler_in|exact load_effect_isolated].
+Qed.
+Print Assumptions C07_effect_links_identity.
+
+(* dangling: a surface whose image is not in the image library, a sampler whose source is not a
+   Surface of this effect's scope, a bump map whose texture names no sampler: DaeBrokenRefError;
+   a shading property whose texture names no sampler is dropped (bound to nothing - never to
+   another object) *)
+Theorem C07_effect_links_dangling :
+  (forall o sid u img r sc acc, lookup o LImages img = None ->
+     load_params o (PSurface sid u img :: r) sc acc = Raise DaeBrokenRef) /\
+  (forall o sid u src r sc acc, (forall su simg, eget sc src <> Some (ESurface su simg)) ->
+     load_params o (PSampler sid u src :: r) sc acc = Raise DaeBrokenRef) /\
+  (forall o ps texs name sc binds, load_params o ps [] [] = Ok (sc, binds) -> find_sampler sc name = None ->
+     load_effect_body o (FX ps texs (Some name)) = Raise DaeBrokenRef) /\
+  (forall o ps name sc binds, load_params o ps [] [] = Ok (sc, binds) -> find_sampler sc name = None ->
+     load_effect_body o (FX ps [name] None) = Ok (binds ++ [0%N])).
+Proof.
+  split; [intros o sid u img r sc acc H; simpl; rewrite H; reflexivity|].
+  split.
+  { intros o sid u src r sc acc H. simpl. destruct (eget sc src) as [[su simg|? ?|]|] eqn:E; try reflexivity.
+    exfalso. exact (H su simg eq_refl). }
+  split.
+  { intros o ps texs name sc binds H1 H2. unfold load_effect_body. simpl. rewrite H1, H2. reflexivity. }
+  intros o ps name sc binds H1 H2. unfold load_effect_body. simpl. rewrite H1, H2. reflexivity.
+Qed.
+Print Assumptions C07_effect_links_dangling.
+
+(* Non-vacuity: image 5 (id 50); an effect whose sampler names its own surface and whose texture
+   names its own sampler; then the sampler source is re-pointed at a sid defined only in ANOTHER
+   effect (77): broken reference *)
+Example C07_effect_links_nonvacuous :
+  let o : objs := [(LImages, (5, 50))]%N in
+  load_effect_body o (FX [PSurface 61 601 50; PSampler 62 602 61; PValue 63] [62] (Some 62))%N = Ok [5; 601; 602; 602]%N /\
+  load_effect_body o (FX [PSurface 61 601 50; PSampler 62 602 77] [62] None)%N = Raise DaeBrokenRef /\
+  load_effect_body o (FX [PSurface 61 601 50; PSampler 62 602 61] [77] None)%N = Ok [5; 601; 0]%N /\
+  load_effect_body o (FX [PSurface 61 601 51; PSampler 62 602 61] [62] None)%N = Raise DaeBrokenRef.
+Proof. vm_compute. repeat split; reflexivity. Qed.
